@@ -5,6 +5,7 @@ package harness
 import (
 	"bytes"
 	"fmt"
+	"strconv"
 	"strings"
 	"testing"
 
@@ -19,6 +20,7 @@ type c01Case struct {
 	End     int      `json:"end"`
 	Wrap    int      `json:"wrap"` // <=0 = off
 	Threads int      `json:"threads"`
+	CLI     bool     `json:"cli,omitempty"` // also run the binary with the equivalent command line
 }
 
 func c01Expected(c c01Case) string {
@@ -73,6 +75,26 @@ func checkC01(c c01Case, o *Obs) error {
 		return fmt.Errorf("toMultiAlign output differs from the alignment model (pad=%v start=%d end=%d wrap=%d threads=%d)\n got: %q\nwant: %q\n%s\nSAM:\n%s",
 			c.Pad, c.Start, c.End, c.Wrap, c.Threads, trunc(out.String(), 700), trunc(want, 700), firstDiff(out.String(), want), trunc(samTxt, 1500))
 	}
+	if c.CLI && gofastaBin() != "" {
+		dir, cleanup := caseDir("c01cli")
+		defer cleanup()
+		args := []string{"sam", "toMultiAlign", "-s", writeFile(dir, "in.sam", samTxt), "-t", strconv.Itoa(c.Threads)}
+		if c.Pad {
+			args = append(args, "--pad")
+		}
+		if c.Start > 0 {
+			args = append(args, "--start", strconv.Itoa(c.Start))
+		}
+		if c.End > 0 {
+			args = append(args, "--end", strconv.Itoa(c.End))
+		}
+		if c.Wrap > 0 {
+			args = append(args, "-w", strconv.Itoa(c.Wrap))
+		}
+		if err := cliAgree(o, "sam toMultiAlign", want, args...); err != nil {
+			return err
+		}
+	}
 	return nil
 }
 
@@ -99,7 +121,7 @@ func genWrap(t *rapid.T, L int) int {
 }
 
 func samOptsFor(conflict bool) samGenOpts {
-	o := samGenOpts{maxRef: 60, maxQueries: 5, maxRecs: 3, allowConflict: conflict, allowNoise: true, iupacRef: true}
+	o := samGenOpts{maxRef: 60, maxQueries: 5, maxRecs: 3, allowConflict: conflict, allowNoise: true, iupacRef: true, hugeEvery: 60}
 	if thorough() {
 		o.maxRef, o.maxQueries, o.maxRecs = 400, 6, 5
 	}
@@ -113,6 +135,7 @@ func genC01(t *rapid.T) c01Case {
 	c.Start, c.End = genWindow(t, L)
 	c.Wrap = genWrap(t, L)
 	c.Threads = rapid.SampledFrom([]int{1, 1, 2, 3, 8}).Draw(t, "threads")
+	c.CLI = rapid.IntRange(0, 19).Draw(t, "cli") == 0
 	return c
 }
 
